@@ -379,7 +379,13 @@ func fileReadAux(L *LState, file *lFile, idx int) int {
 						goto normalreturn
 					}
 					if err != nil {
-						goto errreturn
+						var ioerr *os.PathError
+						if errors.As(err, &ioerr) {
+							goto errreturn
+						}
+						// no number at the cursor: the format fails with nil, only a failing read is an I/O error
+						L.Push(LNil)
+						goto normalreturn
 					}
 					L.Push(v)
 				case 'a':
